@@ -182,8 +182,9 @@ fn inline_type<'a>(input: &mut &'a [u8]) -> ModalResult<Type<'a>, InputError<&'a
     }
     // Look ahead to see if this contains a colon (indicating struct)
     if let Some(pos) = input.iter().position(|&b| b == b')') {
+        // `()` is a struct without fields; an enum has at least one variant.
         let content = &input[1..pos]; // Skip opening paren
-        if content.contains(&b':') {
+        if content.contains(&b':') || content.iter().all(u8::is_ascii_whitespace) {
             struct_type(input)
         } else {
             enum_type(input)
